@@ -12,6 +12,7 @@ oracle:         the observed run (exit status, `pdsh -L` stanzas, init markers, 
                 order must give the same observation
 """
 import itertools
+import json
 import os
 import re
 
@@ -425,14 +426,20 @@ def run(ctx):
             eng.repaired.add("pers")
             ctx.log("_mod_register tests the personality first (F17-PERS repaired): model runs as `persfirst`")
         dist["variant"] = " ".join(eng.margs)
-        cases = [(c, "planned") for c in planned_cases(eng)]
-        n = 2200 if ctx.quick() else 20000
-        cases += [(gen_case(rng, eng), "random") for _ in range(n)]
-        if not ctx.quick():
-            cases += [(c, "matrix") for c in perm_matrix(eng)]
-        check_cases(ctx, eng, cases, cov, dist, distinct, rng)
-        if not ctx.quick():
-            exhaustive_orders(ctx, eng, cov, dist, rng)
+        if getattr(ctx, "replay", None):
+            cases = replay_cases(ctx, eng)
+            cov["rule"] = "replay of %s: exactly the recorded case(s), both recorded enumeration orders, every " \
+                          "option character of the directory" % ctx.replay
+            check_cases(ctx, eng, cases, cov, dist, distinct, rng)
+        else:
+            cases = [(c, "planned") for c in planned_cases(eng)]
+            n = 2200 if ctx.quick() else 20000
+            cases += [(gen_case(rng, eng), "random") for _ in range(n)]
+            if not ctx.quick():
+                cases += [(c, "matrix") for c in perm_matrix(eng)]
+            check_cases(ctx, eng, cases, cov, dist, distinct, rng)
+            if not ctx.quick():
+                exhaustive_orders(ctx, eng, cov, dist, rng)
     cov["distinct_nontrivial"] = len(distinct)
     cov["distribution"] = dist
     return ctx.finish(
@@ -449,6 +456,50 @@ def run(ctx):
                       "Gen/Modopt.lean regenerated from /repo (GEN_ARGS, DSH_ARGS, PCP_ARGS, S_I* bits, default priority)",
                       "harness/preload_shim.c, harness/modtmpl.c, vlib/preload.py, checks/c17.py, gcc, glibc getopt/dlopen"],
         checker_cmd="lake build PdshVerif.Props.C17 && #print axioms on every theorem of Props/C17.lean")
+
+
+def replay_cases(ctx, eng):
+    """cases of a replay file written by ctx.finish (kind `input`: the offender's case; kind
+    `theorem-or-correspondence`: the cases embedded in the disagreement texts, as far as they are complete).
+    Paths of the recorded run's scratch directory are mapped to this run's."""
+    obj = json.load(open(ctx.replay))
+    items = []
+    if obj.get("kind") == "input":
+        items.append(obj["case"])
+    else:
+        for b in obj.get("broken", []):
+            txt = b[2] if len(b) > 2 else ""
+            if ":: case=" in txt:
+                try:
+                    items.append(json.loads(txt.split(":: case=", 1)[1]))
+                except ValueError:
+                    ctx.log("replay: a recorded case is truncated in %s, skipped" % ctx.replay)
+    out = []
+    for it in items:
+        if "case" not in it:
+            continue
+        c = {k: v for k, v in it["case"].items() if k != "origin"}
+        old = None
+        for k in c.get("statmap", {}):
+            m = re.search(r"^(.*?/pdshverif-C17-[^/]+)", k)
+            if m:
+                old = m.group(1)
+        if old:
+            c["statmap"] = {k.replace(old, ctx.scratch): v for k, v in c["statmap"].items()}
+        key = "files" if eng.uses_env(c) else "bfiles"
+        if it.get("order1") and it.get("order2"):
+            c[key] = list(it["order1"])
+            c["_order2"] = list(it["order2"])
+        elif it.get("order"):
+            c["_order2"] = list(c[key])
+            c[key] = list(it["order"])
+        if key == "files":
+            c["bfiles"] = list(eng.builtin_files)
+        c["_all_letters"] = True
+        out.append((c, "replay"))
+    if not out:
+        ctx.broken.append(("C-BROKEN", "replay", "no replayable case in " + str(ctx.replay)))
+    return out
 
 
 def nontrivial_key(eng, c):
@@ -482,7 +533,9 @@ def check_cases(ctx, eng, cases, cov, dist, distinct, rng):
         dist["runs"] += 1
         # second enumeration order of the same directory
         order2 = list(files)
-        if len(order2) > 1:
+        if c.get("_order2"):
+            order2 = list(c["_order2"])          # replay: exactly the recorded second order
+        elif len(order2) > 1:
             for _ in range(4):
                 rng.shuffle(order2)
                 if order2 != files:
@@ -494,7 +547,7 @@ def check_cases(ctx, eng, cases, cov, dist, distinct, rng):
         # option characters
         uses = {}
         ls = letters_of(eng, c) if env_dir and not o1["fatal"] else []
-        for ch in rng.sample(ls, min(3, len(ls))):
+        for ch in (ls if c.get("_all_letters") else rng.sample(ls, min(3, len(ls)))):
             # `-c -L`: an option that takes an argument swallows "-L" (glibc getopt keeps the POSIX
             # ordering of the early pass, so nothing may stand between the option and -L)
             ru = eng.run(c, extra=["-" + ch])
@@ -541,7 +594,7 @@ def check_cases(ctx, eng, cases, cov, dist, distinct, rng):
         if any(not (k.startswith(eng.pool.dir + "/") or k.startswith(eng.builtin + "/")) and k != eng.exe
                for k in c["statmap"]):
             dist["insecure_path"] += 1
-        case = dict(c, origin=origin)
+        case = dict({k: v for k, v in c.items() if not k.startswith("_")}, origin=origin)
         if len(cov["samples"]) < 4 and key is not None and origin == "random" and len(c["files"]) <= 5:
             cov["samples"].append({"case": case, "observed": o1})
         if o1["rc"] not in (0, 1):
